@@ -11,8 +11,19 @@ META = {
     "assumptions": ["EbThreads.c replaced by harness/common/threads_model.h (creation may fail)"],
     "outside": ["constructors not listed", "failures inside running pipeline threads"],
     "stubs": ["svt_print_alloc_fail (empty)"], "explanation": ""}
+EH = "Source/Lib/Encoder/Globals/EbEncHandle.c"
+def gen_handle(wd):
+    import os
+    from vlib import slicer
+    import re
+    src = slicer.read(EH)
+    consts = "".join(l + "\n" for l in src.split("\n") if re.match(r"#define EB_(EncodeInstancesTotalCount|ComputeSegmentInitCount|SequenceControlSetPoolInitCount)\b", l))
+    open(os.path.join(wd, "c16_handle.inc"), "w").write("/* constants of EbEncHandle.c, verbatim */\n" + consts + slicer.functions(EH, ["svt_enc_handle_stop_threads", "svt_enc_handle_dctor", "svt_enc_handle_ctor"]))
 def queries(tier, fail=1, prefix="fail_"):
     qs = []
+    qs.append(Query(name=prefix + "enc_handle", harness="C16/ctors.c", gen=gen_handle, defines=["OBJ=5", "FAIL=%d" % fail], unwind=3, funcs=[EH + ":svt_enc_handle_ctor", EH + ":svt_enc_handle_dctor", EH + ":svt_enc_handle_stop_threads"],
+                    bound="handle creation (svt_av1_enc_init_handle -> svt_enc_handle_ctor); the sequence-control-set instance constructor replaced by a stand-in with 4 requests" + ("; the k-th allocation request fails, all k" if fail else "; no failures"),
+                    what="construction failure of the encoder handle is reported and unwound without crash or leak" if fail else "handle constructor+destructor release every allocation", timeout=900))
     for k, (n, funcs, b) in OBJS.items():
         if k == 2 and fail:
             continue      # measured: the resource manager's partial-teardown paths need >12 GB per query and did not finish; not registered
